@@ -31,7 +31,7 @@ SIZES = [0, 1, 2, 14, 15, 16, 17, 30, 48]
 
 def bounds(tier):
     return {"cut_bound_protocol_seam": 3 if tier == "thorough" else 2, "cut_bound_wire_seam": 2 if tier == "thorough" else 1,
-            "all_subsets_up_to_bytes": 20 if tier == "thorough" else 16, "payload_sizes": SIZES, "packets_per_stream": "1..4", "garbage_prefix": "0..6 bytes"}
+            "all_subsets_up_to_bytes": 20 if tier == "thorough" else 16, "payload_sizes": SIZES, "size_field_boundary_values": BIG_SIZES, "packets_per_stream": "1..4", "garbage_prefix": "0..6 bytes"}
 
 
 def pkt(n: int, tag: str, special: int = 0) -> bytes:
@@ -48,8 +48,16 @@ def pkt(n: int, tag: str, special: int = 0) -> bytes:
         body[1:7] = b"\x83\x70\x00\x02\x20\x01"
     if special == 4 and n >= 2:          # payload begins with the marker
         body[0:2] = b"\x83\x70"
+    if special == 5 and n >= 2:          # payload ends with the marker
+        body[-2:] = b"\x83\x70"
+    if special == 6 and n >= 6:          # a complete look-alike header at the very end of the payload
+        body[-6:] = b"\x83\x70\x00\x01\x20\x01"
     return rc.v3_build_plain(rc.T_HANDSHAKE_RESP, 0x0102, bytes(body))
 
+
+# size-field boundary values (the 2-byte big-endian size field, carries, byte boundaries)
+BIG_SIZES = [247, 248, 249, 255, 256, 257, 503, 504, 505, 510, 511, 512, 513, 767, 768, 1016, 1023, 1024, 1272, 1279, 1280, 2047, 2048,
+             4095, 4096, 16383, 32767, 32768, 65527]
 
 GARBAGE = [b"", b"\x00", b"\x83", b"\x70\x83", b"\x00\x83", b"\x5a\x5a\x01", b"\xff\x70\x83\x00", b"\x83\x83\x83\x83\x83",
            b"\x70\x70\x83\x71\x00\x83"]
@@ -69,6 +77,9 @@ def streams(tier) -> list[tuple[str, bytes]]:
     out.append(("4x", pkt(2, "g", 2) + pkt(0, "h") + pkt(14, "i", 1) + pkt(1, "j")))
     for i, g in enumerate(GARBAGE[1:], 1):
         out.append((f"garbage{i}", g + pkt(2, "k", 2) + pkt(1, "l")))
+        # garbage prefix + a packet whose LAST bytes look like a marker / header + more packets
+        out.append((f"garbage{i}-tailmarker", g + pkt(4, "k5", 5) + pkt(1, "l5") + pkt(0, "m5")))
+        out.append((f"garbage{i}-tailheader", g + pkt(8, "k6", 6) + pkt(2, "l6", 5) + pkt(0, "m6")))
     if tier == "thorough":
         out.append(("4x-long", pkt(17, "m", 3) + pkt(30, "n", 1) + pkt(0, "o") + pkt(16, "p", 2)))
         out.append(("2x48", pkt(48, "q", 3) + pkt(30, "r", 4)))
@@ -106,6 +117,8 @@ def shards(tier):
     for i in range(nsmall):
         for part in range(2 if tier != "thorough" else 8):
             out.append(("all", i, part, 2 if tier != "thorough" else 8))
+    for i in range(len(BIG_SIZES)):
+        out.append(("big", i, 0))
     nparts = 8 if tier == "thorough" else 2
     for k in (1, 2, 3):
         for part in range(nparts):
@@ -316,9 +329,40 @@ def run_wire(st: Stats, k: int, part: int, nparts: int, maxcuts: int):
     st.reruns += det.reruns
 
 
+def run_big(st: Stats, idx: int):
+    """Packets whose size field takes boundary values: whole, every single cut near the end, a few 2-cut schedules."""
+    n = BIG_SIZES[idx]
+    w = World()
+    try:
+        for variant in (0, 1):
+            stream = pkt(n, f"big{n}", 1 if variant else 0) + pkt(3, "after-big", 2) + (pkt(0, "after2") if variant else b"")
+            name = f"big{n}/{variant}"
+            case = {"kind": "big", "stream": name, "size": n}
+            cache = {}
+            L = len(stream)
+            first = 8 + n
+            cutsets = [()]
+            near = sorted(set(range(max(1, first - 300), min(L, first + 12))) | set(range(1, 12)) | {first // 2, L - 1})
+            cutsets += [(c,) for c in near]
+            cutsets += [(a, b) for a in (5, 8, first - 257, first - 256, first - 255, first - 1) for b in (first, first + 1, first + 6, L - 1)
+                        if 0 < a < b < L]
+            for cuts in cutsets:
+                ok = feed(w, stream, tuple(cuts), st, case, cache)
+                st.ev((name, tuple(cuts)), "agree" if ok else "differ", True)
+            if L <= 2200:
+                ok = feed(w, stream, tuple(range(1, L)), st, case, cache)
+                st.ev((name, "bytewise"), "agree" if ok else "differ", True)
+    finally:
+        w.close()
+
+
 def run_shard(shard, tier) -> Stats:
     st = Stats()
     kind = shard[0]
+    if kind == "big":
+        run_big(st, shard[1])
+        st.traces = st.evaluations
+        return st
     if kind == "cuts":
         name, stream = streams(tier)[shard[1]]
         maxc = 3 if tier == "thorough" else 2
@@ -344,6 +388,9 @@ def replay(case):
             cuts, gap = tuple(range(1, len(info["stream"]))), 0.0007
         out, info, frames = wire_exec(case["packets"], cuts, gap)
         return str(out)[:500]
+    if case.get("kind") == "big":
+        run_big(st, BIG_SIZES.index(case["size"]))
+        return sorted(st.viol_counts)
     allst = dict(streams("thorough") + small_streams("thorough"))
     w = World()
     try:
